@@ -237,6 +237,8 @@ struct Trace {
     extra_some: u32,
     /// a `rest()` that is not a part of the area
     outside: bool,
+    /// `size_hint()` in front of every `next()` call (also the call that ended the iteration)
+    hints: Vec<(usize, Option<usize>)>,
 }
 
 /// offset of `rest` inside `area` (None for an empty rest: its pointer carries no information)
@@ -263,9 +265,11 @@ fn drive<'a>(mut it: TcpOptionsIterator<'a>, area: &[u8]) -> Trace {
         term: Term::None,
         extra_some: 0,
         outside: false,
+        hints: Vec::with_capacity(8),
     };
     loop {
         let before = it.rest();
+        t.hints.push(it.size_hint());
         let r = it.next();
         let after = it.rest();
         match r {
@@ -484,6 +488,23 @@ impl C13 {
                 });
             }
             (_, Term::Budget) => {}
+        }
+        // `Iterator::size_hint` brackets the number of items that are still to come ("iteration is
+        // bounded" is what a caller sizing a buffer or a loop from it relies on)
+        if !matches!(tr.term, Term::Budget) {
+            let total = tr.items.len() + matches!(tr.term, Term::Err(_)) as usize;
+            for (i, (lo, hi)) in tr.hints.iter().enumerate() {
+                let left = total.saturating_sub(i);
+                if *lo > left || hi.map_or(false, |h| h < left) {
+                    rep.violation(
+                        &format!("size_hint|{}", entry),
+                        format!("{}: before next() call {} size_hint() = ({}, {:?}) but {} item(s) were still to come", entry, i + 1, lo, hi, left),
+                        area,
+                    );
+                    return false;
+                }
+            }
+            rep.add("size_hints_checked", tr.hints.len() as u64);
         }
         if tr.extra_some > 0 {
             rep.violation(
